@@ -199,6 +199,24 @@ def one(case):
         return {"r": "other", "what": "BUILD %s: %s" % (type(e).__name__, str(e)[:200])}
     cfg = case["cfg"]
     ch = case["channel"]
+    if case.get("label") == "valid":
+        # "there is no lenient mode that accepts leftovers": parse_known_args refuses callers outside the package
+        try:
+            p.parse_known_args([])
+            return {"r": "other", "what": "parse_known_args accepted an external caller"}
+        except NotImplementedError:
+            pass
+        except BaseException as e:
+            return {"r": "other", "what": "parse_known_args: %s: %s" % (type(e).__name__, str(e)[:120])}
+        # leftover argv is refused ("Unrecognized arguments")
+        try:
+            p.parse_args(["--cfg=" + json.dumps(cfg), "--zz=7"])
+            return {"r": "other", "what": "leftover argv --zz=7 accepted"}
+        except ArgumentError as e:
+            if "Unrecognized arguments: --zz=7" not in str(e):
+                return {"r": "other", "what": "leftover argv: " + str(e)[:160]}
+        except BaseException as e:
+            return {"r": "other", "what": "leftover argv: %s: %s" % (type(e).__name__, str(e)[:120])}
     try:
         with warnings.catch_warnings():
             warnings.simplefilter("ignore")
